@@ -29,7 +29,8 @@ ASSUMPTIONS = ["stop() runs on the virtual clock: its 1 s polling sleeps are 1 m
 TIMEOUT = {"quick": 900, "thorough": 3600}
 SCTP_CLONES = {"quick": ['s11', 's5'], "thorough": ['s12', 's13', 's14', 's15']}
 STATES = ["connecting", "await_cer", "await_cea", "ready", "ready_idle_soon", "waiting_dwa", "disconnecting",
-          "ready_after_unencodable"]     # ready, and a message queued for it earlier could not be encoded
+          "ready_after_unencodable",     # ready, and a message queued for it earlier could not be encoded
+          "ready_backlog"]               # ready; a burst of requests is under way to a busy thread-limited application
 REACTIONS = ["prompt", "late", "never", "close", "dpa_then_close", "handshake_during_stop", "dpa_output_pending",
              "prompt_error_dpa"]      # the DPA carries a non-success result (with the E bit): a DPA all the same
 
@@ -63,8 +64,13 @@ class Case:
             peers.append({"name": "lost.verif.example", "persistent": True, "reconnect_wait": 2, "ip": "10.1.0.77"})
         peers.append({"name": "newcomer.verif.example"})
         ips = ("10.0.0.1", "10.0.0.2", "10.0.0.3")[:2 if listen == 12 else listen]
+        backlog = any(st == "ready_backlog" for st, _ in conns)
+        app_cfg = {"tag": "a4", "id": 4, "kind": "threading", "peers": [p["name"] for p in peers]}
+        if backlog:
+            # one handler thread at most, and handlers that wait until the harness lets them go (after stop returned)
+            app_cfg.update(max_threads=1, behaviour="slow")
         self.w = World(dict(peers=peers, ips=ips, both=listen == 12,
-                            apps=[{"tag": "a4", "id": 4, "kind": "threading", "peers": [p["name"] for p in peers]}],
+                            apps=[app_cfg],
                             node={"idle_timeout": 10 ** 6, "dwa_timeout": 10 ** 6, "cea_timeout": 10 ** 6,
                                   "cer_timeout": 10 ** 6, "wakeup_interval": 1}))
         self.h, self.node = self.w.h, self.w.node
@@ -140,7 +146,17 @@ class Case:
                 c = h.conn_of(sp)
                 # ground truth from the history (which exchange took place on it), not the library's state field
                 ready_at_stop[i] = c is not None and spec["conns"][i][0] in ("ready", "ready_idle_soon", "waiting_dwa",
-                                                                             "ready_after_unencodable")
+                                                                             "ready_after_unencodable", "ready_backlog")
+            for i, sp in enumerate(self.sp):
+                if sp is not None and spec["conns"][i][0] == "ready_backlog":
+                    # 14 requests in one write, read by the node just before stop() is called: the application is
+                    # still working through them (one handler thread, busy) when the shutdown begins
+                    name = f"peer{i + 1}.verif.example"
+                    sp.send(b"".join(M.ccr(name, self.REALM, self.REALM, app=4, hbh=8000 + 20 * i + k,
+                                           e2e=8100 + 20 * i + k, session=f"b;{i};{k}") for k in range(14)))
+                    for _ in range(3):
+                        h.tick()
+                    self.run.cov["backlog_bursts"] = self.run.cov.get("backlog_bursts", 0) + 1
             seen = [len(sp.frames) if sp is not None else 0 for sp in self.sp]
             result = {}
 
@@ -182,9 +198,11 @@ class Case:
                         import sys as _sys
                         import traceback as _tb
                         fr = _sys._current_frames().get(node._connection_thread.ident)
-                        stack = [f"{os.path.basename(f.filename)}:{f.name}:{f.lineno}" for f in _tb.extract_stack(fr)[-4:]] \
+                        full = [f"{os.path.basename(f.filename)}:{f.name}:{f.lineno}" for f in _tb.extract_stack(fr)] \
                             if fr is not None else []
-                        if stack and not stack[-1].startswith("harness.py"):
+                        stack = full[-4:]
+                        # inside the harness's select() (waiting for its next permit) is where it belongs
+                        if stack and not any(x.startswith("harness.py") for x in full):
                             self.witness("shutdown.node_thread_blocked_during_stop.io", {"stack": stack})
                             io_blocked = True
                             break
@@ -244,7 +262,8 @@ class Case:
                     # not kept until the wait timeout
                     # (the I/O loop serves one "wants attention" notice per iteration, and every queued message of every
                     # connection raises one: the bound grows with what the other connections have under way)
-                    noisy = sum(1 for _, re in spec["conns"] if re == "dpa_output_pending")
+                    noisy = sum(1 for _, re in spec["conns"] if re == "dpa_output_pending") + \
+                        2 * sum(1 for st_, _ in spec["conns"] if st_ == "ready_backlog")
                     if it >= j + 4 + 10 * noisy:
                         if not self.sp[i].node_sock.closed and h.now - t0 < spec["wait_timeout"] - 1:
                             self.witness("shutdown.connection_not_closed_after_dpa", {"conn": i, "iterations": it - j})
@@ -342,6 +361,10 @@ class Case:
             connects = [e for e in ev if e["kind"] == "connect"]
             if connects:
                 self.witness("shutdown.dialled_while_stopping", {"connects": [c["addr"] for c in connects]})
+            # handlers the harness kept waiting are let go: what happens to them is not the shutdown's business
+            for app in self.w.apps.values():
+                if hasattr(app, "release"):
+                    app.release.set()
             # ---- census after return
             for s in h.sockets:
                 if not s.closed and s.role in ("listener", "accepted", "outbound"):
